@@ -884,7 +884,28 @@ def inline_new_helpers(data, known_fns):
                 body = copy.deepcopy(node["body"])
                 for rank, y in enumerate(sorted(A.walk(body), key=A.pos)):
                     y["o"] = (call["el"], call["ec"], rank)
-                binds = [(p, a) for p, a in zip(ps, args) if not (a.get("k") == "Path" and a.get("path") == p["name"] and not (p.get("pat") or {}).get("mut"))]
+                # a function handed in by name (`fn(..) -> ..` parameter, argument `Type::method`): its calls through the parameter
+                # are calls of that function -- `f(recv, a)` becomes `recv.method(a)` when it is a method with a receiver
+                fnargs = {p["name"]: a for p, a in zip(ps, args) if "".join(str(p.get("ty") or "").split()).startswith("fn(") and a.get("k") == "Path"}
+                if fnargs:
+                    for y in list(A.walk(body)):
+                        if y.get("k") == "Call" and y["func"].get("k") == "Path" and y["func"]["path"] in fnargs:
+                            target_path = fnargs[y["func"]["path"]]["path"]
+                            tname = target_path.split("::")[-1]
+                            owner_ty = target_path.split("::")[-2] if "::" in target_path else None
+                            tfn = [t for t in fns.get(tname, []) if t[3] and (owner_ty in (None, "Self", t[3]["self_ty"]))]
+                            ypos = {k: y[k] for k in ("l", "c", "el", "ec")}
+                            if len(tfn) == 1 and tfn[0][2]["params"] and tfn[0][2]["params"][0].get("name") == "self" and y["args"]:
+                                recv, rest = y["args"][0], y["args"][1:]
+                                keep_o = y.get("o")
+                                y.clear()
+                                y.update({"k": "MethodCall", "recv": recv, "method": tname, "args": rest, "turbofish": None, "ml": ypos["l"], "mc": ypos["c"], **ypos})
+                                if keep_o:
+                                    y["o"] = keep_o
+                            else:
+                                y["func"]["path"] = target_path
+                ps_args = [(p, a) for p, a in zip(ps, args) if p["name"] not in fnargs]
+                binds = [(p, a) for p, a in ps_args if not (a.get("k") == "Path" and a.get("path") == p["name"] and not (p.get("pat") or {}).get("mut"))]
                 stmts = []
                 if binds:
                     pats = [{"k": "PIdent", "name": p["name"], "mut": bool((p.get("pat") or {}).get("mut")), "by_ref": False, "sub": None, **pos} for p, _a in binds]
